@@ -245,7 +245,7 @@ static void do_readi(int h,long len,int word,int sgned,int be){
     x->delivered+=(long long)frames<<hs;
     ev_i("ch",ch); ev_i("frames",frames); ev_i("ta",ta);
     /* locate: compare with quantised reference at ta */
-    int ok=0; file_t *F=x->F;
+    int ok=0; file_t *F=x->F; int smp_done=0;
     if(ta>=0 && ta<F->start[F->nlinks]){
       int l=file_link_of_pos(F,ta); link_t *L=F->links[l]; float **ref=hs?L->refh:L->ref; long nr=hs?L->nrefh:L->nref; long p=ta-F->start[l]; long q=hs?p>>1:p;
       if(ref && ch==L->ch && q+frames<=nr && !(hs&&(p&1))){
@@ -262,10 +262,47 @@ static void do_readi(int h,long len,int word,int sgned,int be){
         for(int k=0;k<nidx;k++){ long j=idx[k]; for(int c=0;c<ch&&c<4;c++){
           int s,e,m; f32parts(ref[c][q+j],&s,&e,&m); const unsigned char *b=buf+(j*ch+c)*w; char t[160];
           snprintf(t,sizeof t,"{\"j\":%ld,\"c\":%d,\"s\":%d,\"ex\":%d,\"m\":%d,\"b0\":%d,\"b1\":%d}",j,c,s,e,m,b[0],w==2?b[1]:-1); ev_arr_raw(t); } }
-        ev_arr_end();
+        ev_arr_end(); smp_done=1;
       }
     }
+    if(!smp_done){ ev_arr_begin("smp"); ev_arr_end(); }
     ev_i("id", ok?ta:-1); ev_i("mf", ok?0:frames);
+  }
+  ev_state(h); ev_end();
+}
+
+/* ---- integer read with TLC-chosen float values injected through ov_read_filter ---- */
+static uint32_t inj_vals[4096]; static int inj_n; static long inj_seen_samples; static int inj_seen_ch;
+static void inj_filter(float **pcm,long channels,long samples,void *param){
+  (void)param; inj_seen_samples=samples; inj_seen_ch=(int)channels;
+  for(long j=0;j<samples;j++) for(long c=0;c<channels;c++){ uint32_t u=inj_vals[(j*channels+c)%inj_n]; memcpy(&pcm[c][j],&u,4); }
+}
+static void do_readi_inj(int h,long len,int word,int sgned,int be,const char *hexlist){
+  hnd_t *x=&H[h]; OggVorbis_File *vf=&x->vf; int bs=-7;
+  static unsigned char buf[1<<20];
+  if(len>(long)sizeof(buf)-64) len=sizeof(buf)-64;
+  long gl=len>0?len:0; memset(buf,0xA5,gl+64);
+  inj_n=0; { const char *q=hexlist; while(*q&&inj_n<4096){ inj_vals[inj_n++]=(uint32_t)strtoul(q,NULL,16); while(*q&&*q!=',')q++; if(*q)q++; } }
+  if(inj_n==0){ inj_vals[0]=0; inj_n=1; }
+  long t0=vf->pcm_offset; int hs=0; inj_seen_samples=-1;
+  call_begin(h);
+  long n=ov_read_filter(vf,(char*)buf,(int)len,be,word,sgned,&bs,inj_filter,NULL);
+  if(n>0 && vf->vi && vf->vi->codec_setup) hs=vorbis_synthesis_halfrate_p(vf->vi);
+  ev_begin("ReadI"); ev_b("inj",1); ev_i("len",len); ev_i("word",word); ev_i("sg",sgned); ev_i("be",be); ev_i("ret",n); ev_i("bs",bs); ev_i("t0",t0);
+  { int g=1; for(int i=0;i<64;i++) if(buf[(n>0?n:0)+i]!=0xA5) g=0; ev_b("guard",g); }
+  { int untouched=1; if(n<=0) for(long i=0;i<gl;i++) if(buf[i]!=0xA5){untouched=0;break;} ev_b("untouched",untouched); }
+  if(n>0){
+    vorbis_info *vi=ov_info(vf,-1); int ch=vi?vi->channels:0; int w=(word==1)?1:2;
+    long frames=ch>0?n/(w*ch):0; long ta=vf->pcm_offset-(frames<<hs);
+    if(!vf->seekable) ta=x->delivered;
+    x->delivered+=(long long)frames<<hs;
+    ev_i("ch",ch); ev_i("frames",frames); ev_i("ta",ta); ev_i("fsamples",inj_seen_samples); ev_i("fch",inj_seen_ch);
+    ev_arr_begin("smp");
+    long lim=frames*ch; if(lim>96) lim=96;
+    for(long k=0;k<lim;k++){ long j=k/ch; int c=(int)(k%ch); uint32_t u=inj_vals[(j*ch+c)%inj_n]; const unsigned char *b=buf+(j*ch+c)*w; char t[160];
+      snprintf(t,sizeof t,"{\"j\":%ld,\"c\":%d,\"s\":%u,\"ex\":%u,\"m\":%u,\"b0\":%d,\"b1\":%d}",j,c,u>>31,(u>>23)&255,u&0x7fffff,b[0],w==2?b[1]:-1); ev_arr_raw(t); }
+    ev_arr_end();
+    ev_i("id",ta); ev_i("mf",0);     /* content was replaced on purpose: identity is not claimed for this read */
   }
   ev_state(h); ev_end();
 }
@@ -377,6 +414,7 @@ static int run_scenario(int from,int to,const char *name,int budget){
     else if(!strcmp(c,"open")&&nt>=4){ long init=0; if(nt>=5&&!strncmp(tok[4],"init=",5)) init=atol(tok[4]+5); file_t *F=g_files[atoi(tok[2])]; if(F) do_open(atoi(tok[1]),F,tok[3],init); }
     else if(!strcmp(c,"rf")&&nt>=3) do_readf(atoi(tok[1]),atol(tok[2]));
     else if(!strcmp(c,"rfn")&&nt>=4){ int h=atoi(tok[1]); long cnt=atol(tok[3]); for(long i=0;(cnt<0||i<cnt)&&i<400000;i++){ long r=do_readf(h,atol(tok[2])); if(r<=0&&(cnt<0||r!=OV_HOLE)) break; } }
+    else if(!strcmp(c,"rif")&&nt>=7) do_readi_inj(atoi(tok[1]),atol(tok[2]),atoi(tok[3]),atoi(tok[4]),atoi(tok[5]),tok[6]);
     else if(!strcmp(c,"ri")&&nt>=6) do_readi(atoi(tok[1]),atol(tok[2]),atoi(tok[3]),atoi(tok[4]),atoi(tok[5]));
     else if((!strcmp(c,"ps")||!strcmp(c,"psp")||!strcmp(c,"rs")||!strcmp(c,"psl")||!strcmp(c,"pspl")||!strcmp(c,"rsl"))&&nt>=3) do_seek(atoi(tok[1]),c,tok[2]);
     else if((!strcmp(c,"ts")||!strcmp(c,"tsp")||!strcmp(c,"tsl")||!strcmp(c,"tspl"))&&nt>=5) do_tseek(atoi(tok[1]),c,atol(tok[2]),atol(tok[3]),atol(tok[4]));
